@@ -1256,6 +1256,23 @@ func main() {
 		}
 	}
 
+	// a section below / above the chunk: an error, never an index panic
+	for i := 0; i < 6; i++ {
+		c := randChunk(r, randShape(r, 1+r.Intn(2), false))
+		s := &save.Chunk{YPos: int32(r.Pick(0, -4))}
+		if err := level.ChunkToSave(c, s); err != nil {
+			continue
+		}
+		s.Sections[0].Y = int8(s.YPos) - int8(1+i%3)
+		if i >= 3 {
+			s.Sections[0].Y = int8(s.YPos) + int8(len(s.Sections)+i%3)
+		}
+		_, why := fromSaveCaseE(o, "fromsave.malformed", s)
+		if !strings.Contains(why, "out of bounds") {
+			o.Fail("C13.save.from-bounds", "section Y %d outside the chunk (YPos %d, %d sections): ChunkFromSave gave %q, an error is expected", s.Sections[0].Y, s.YPos, len(s.Sections), why)
+		}
+	}
+
 	// --- the counter
 	for i := 0; i < o.N(120, 10); i++ {
 		countCase(o, r, r.Pick(0, 1, 2, 10, 100, 400), "count")
